@@ -60,7 +60,6 @@ func (gkg GaloisKeyGenProtocol) GenShare(sk *rlwe.SecretKey, galEl uint64, crp G
 	levelP := shareOut.LevelP()
 
 	ringQ := gkg.params.RingQ().AtLevel(levelQ)
-	ringP := gkg.params.RingP().AtLevel(levelP)
 
 	galElInv := ring.ModExp(galEl, ringQ.NthRoot()-1, ringQ.NthRoot())
 
@@ -70,6 +69,8 @@ func (gkg GaloisKeyGenProtocol) GenShare(sk *rlwe.SecretKey, galEl uint64, crp G
 	ringQ.AutomorphismNTT(sk.Value.Q, galElInv, gkg.skOut.Q)
 
 	if levelP > -1 {
+		// RingP is nil for parameters without auxiliary modulus: only touch it when the share has a P part
+		ringP := gkg.params.RingP().AtLevel(levelP)
 		ringP.AutomorphismNTT(sk.Value.P, galElInv, gkg.skOut.P)
 	}
 
